@@ -17,7 +17,7 @@ Triggers of recorded defects are avoided (README: Known defects):
   D15          a reference whose value is a modelx object: never generated (values are ints)
   D18          'bases' key in the result of a parameter formula: never generated
   names of deleted spaces are not reused (a re-created static space has a new dynamic_cache: old handles stay dead)."""
-import json, copy
+import json, copy, os
 from dynmirror import apply_edit
 from fw import cz, cN, cnat, cbool, cstr, clist, ctuple, copt
 
@@ -156,6 +156,10 @@ def e_op(op, recipes):
         return "(ODelSpace %s)" % e_path(op["q"])
     if k == "setparams":
         return "(OSetParams %s %s)" % (e_path(op["p"]), e_pform(op["params"]))
+    if k == "setglobal":
+        return "(OSetGlobal %s %s)" % (cstr(op["x"]), cz(op["v"]))
+    if k == "delglobal":
+        return "(ODelGlobal %s)" % cstr(op["x"])
     if k == "clearitems":
         return "(OClearItems %s)" % e_path(op["p"])
     if k == "delitem":
@@ -165,6 +169,8 @@ def e_op(op, recipes):
 
 def emit_case(case, res):
     """Coq term of type Dyn.Tie.tie_case, or None when the case has operations outside the model's vocabulary"""
+    if case.get("ponly"):
+        return None
     recipes = []       # per slot
     steps = []
     for op, st in zip(case["ops"], res["steps"]):
@@ -278,6 +284,8 @@ def ctx_for(defs, p, upto=None):
     nd = node_of(defs, p)
     lower = []
     for c in nd["cells"]:
+        if c[0] not in CELLS:
+            continue
         if upto is not None and CELLS.index(c[0]) >= CELLS.index(upto):
             continue
         lower.append((c[0], len(c[1])))
@@ -295,6 +303,8 @@ def ctx_for(defs, p, upto=None):
                 names += acc
     if not names or rng_names_extra(defs, p):
         names = names + PNAMES
+    if len(names) >= 4:
+        names = names + ["g"]
     return {"locals": [], "names": names, "lower": lower, "children": ch}
 
 
@@ -349,7 +359,7 @@ def gen_defs(rng):
         nd["refs"] = [[x, rng.randint(0, 9)] for x in rng.sample(REFS, rng.choice([0, 1, 1, 2]))]
         for c in CELLS[:rng.choice([1, 2, 2, 3])]:
             nd["cells"].append(gen_cells_def(rng, c, ctx_for(defs, p, upto=c)))
-        if rng.random() < (0.85 if len(p) == 1 else 0.4):
+        if rng.random() < (0.85 if len(p) == 1 else 0.5):
             nd["params"] = gen_pform(rng, [q for q in paths if q != p],
                                      PNAMES if len(p) == 1 or rng.random() < 0.5 else ["k", "i"])
     if not any(nd["params"] for nd in defs):
@@ -393,6 +403,7 @@ class Gen:
         self.slots = []                      # per handle slot: {"s": static path, "path": guessed static base path, "item": bool}
         self.requests = []                   # (par, sigpath, vals)
         self.based = set()
+        self.globs = {}
         self.dead_names = set()
         self.precautions = 0
         for nd in defs:
@@ -411,6 +422,8 @@ class Gen:
         self.ops.append(op)
 
     def precaution(self):
+        if os.environ.get("C07_NO_PRECAUTION") == "1":   # experiment: a tree in which D14/D16/D38 are repaired
+            return
         self.precautions += 1
         for p in self.param_spaces():
             self.emit({"op": "clearitems", "p": p})
@@ -487,7 +500,17 @@ class Gen:
         rng = self.rng
         kind = rng.choice(["setformula"] * 6 + ["newcells"] * 3 + ["delcells"] * 2 + ["changeref"] * 4 + ["newref"] * 2
                           + ["delref"] * 2 + ["newspace"] * 1 + ["delspace"] * 1 + ["setparams"] * 2
-                          + ["clearitems"] * 1 + ["delitem"] * 2)
+                          + ["clearitems"] * 1 + ["delitem"] * 2 + ["setglobal"] * 2 + ["delglobal"] * 1)
+        if kind == "setglobal":
+            op = {"op": "setglobal", "x": rng.choice(["g", "g", "w"]), "v": rng.randint(50, 90)}
+            self.emit(op); self.apply(op)
+            return True
+        if kind == "delglobal":
+            if not self.globs:
+                return False
+            op = {"op": "delglobal", "x": rng.choice(sorted(self.globs))}
+            self.emit(op); self.apply(op)
+            return True
         nd = rng.choice(self.defs)
         p = nd["path"]
         paths = [n["path"] for n in self.defs]
@@ -498,10 +521,16 @@ class Gen:
                 nd = rng.choice(safe); p = nd["path"]
             else:
                 kind = rng.choice(["setformula", "newcells", "changeref"])
+        if getattr(self, "hb", False) and rng.random() < 0.4:
+            hosts = [n for n in self.defs if any(c[0] == "hb" for c in n["cells"])]
+            if hosts:
+                op = {"op": "setformula", "p": hosts[0]["path"], "c": "hb", "params": [], "body": ["c", rng.randint(10, 30)]}
+                self.emit(op); self.apply(op)
+                return True
         if kind == "setformula":
-            if not nd["cells"]:
+            if not [c for c in nd["cells"] if c[0] != "hb"]:
                 return False
-            c = rng.choice(nd["cells"])[0]
+            c = rng.choice([c for c in nd["cells"] if c[0] != "hb"])[0]
             old = [x for x in nd["cells"] if x[0] == c][0]
             keep = rng.random() < 0.7          # mostly keep the arity
             for _ in range(8):
@@ -581,7 +610,7 @@ class Gen:
         return True
 
     def apply(self, op):
-        apply_edit(self.defs, op)
+        apply_edit(self.defs, op, self.globs)
         k = op["op"]
         if k == "delspace":
             q = op["q"]
@@ -589,10 +618,58 @@ class Gen:
         if k in ("setparams", "newspace") and op["params"]:
             bases_named(op["params"]["body"], self.based)
 
+    def scenario_nested(self):
+        """S[a].C[b] / S[a][b]: an ItemSpace requested from a dynamic child space or from an ItemSpace"""
+        rng = self.rng
+        tops = [nd for nd in self.defs if nd["params"]]
+        if not tops:
+            return
+        nd = rng.choice(tops)
+        n0 = len(self.slots)
+        self.requests = self.requests
+        before = len(self.ops)
+        # request an instance of nd
+        sig = nd["params"]["sig"]
+        pos, kw, style, vals = gen_spelling(rng, sig)
+        self.requests.append(({"s": nd["path"]}, nd["path"], vals))
+        self.emit({"op": "getitem", "par": {"s": nd["path"]}, "pos": pos, "kw": kw, "style": style})
+        base = pbody_base(nd["params"]["body"], {x: v for (x, _), v in zip(sig, vals)}) or nd["path"]
+        self.slots.append({"path": list(base), "item": True})
+        cur = n0
+        for _ in range(rng.choice([1, 2])):
+            path = self.slots[cur]["path"]
+            kids = [X for X in children_of(self.defs, path) if node_of(self.defs, path + [X])["params"]]
+            if kids and rng.random() < 0.75:
+                X = rng.choice(kids)
+                self.emit({"op": "child", "h": cur, "name": X})
+                self.slots.append({"path": path + [X], "item": False})
+                cur = len(self.slots) - 1
+                path = path + [X]
+            pn = node_of(self.defs, path)
+            if pn is None or not pn["params"]:
+                break
+            sig = pn["params"]["sig"]
+            pos, kw, style, vals = gen_spelling(rng, sig)
+            self.requests.append(({"h": cur}, path, vals))
+            self.emit({"op": "getitem", "par": {"h": cur}, "pos": pos, "kw": kw, "style": style})
+            base = pbody_base(pn["params"]["body"], {x: v for (x, _), v in zip(sig, vals)}) or path
+            self.slots.append({"path": list(base), "item": True})
+            cur = len(self.slots) - 1
+            self.op_eval_on(cur)
+
+    def op_eval_on(self, i):
+        c, ar = self.pick_cells(i)
+        self.emit({"op": "eval", "h": i, "c": c, "args": [self.rng.randint(0, 3) for _ in range(ar)]})
+
     def run(self):
         rng = self.rng
         guard = 0
         refresh = 0
+        if rng.random() < 0.3:
+            op = {"op": "setglobal", "x": "g", "v": rng.randint(50, 90)}
+            self.emit(op); self.apply(op)
+        if rng.random() < 0.35:
+            self.scenario_nested()
         while len(self.ops) < self.nops and guard < 400:
             guard += 1
             r = rng.random()
@@ -613,8 +690,35 @@ class Gen:
         return {"defs": self.case_defs, "ops": self.ops}
 
 
+def add_static_call(rng, defs):
+    """(P)-only vocabulary: a parameter formula that calls a cells `hb` of a static space (the ItemSpace then hangs
+    below that cells in the trace graph: editing the cells must delete the instance, model.py clear_with_descs)"""
+    tops = [nd for nd in defs if nd["params"]]
+    hosts = [nd for nd in defs if not nd["params"]] or defs
+    if not tops:
+        return False
+    host = rng.choice(hosts)
+    host["cells"].append(["hb", [], ["c", rng.randint(1, 9)]])
+    nd = rng.choice(tops)
+    body = nd["params"]["body"]
+    ref = [rng.choice(["u", "y"]), ["b", "+", ["scall", host["path"], "hb"], ["c", rng.randint(0, 3)]]]
+    if isinstance(body, dict):
+        body["refs"] = [r for r in body["refs"] if r[0] != ref[0]] + [ref]
+    else:
+        nd["params"]["body"] = {"base": None, "refs": [ref]}
+    return True
+
+
 def gen_case(rng, nops=None):
     defs = gen_defs(rng)
+    ponly = rng.random() < 0.1 and add_static_call(rng, defs)
+    if ponly:
+        g = Gen(rng, defs, nops or rng.choice([8, 12, 16]))
+        g.hb = True
+        case = g.run()
+        case["precautions"] = g.precautions
+        case["ponly"] = True
+        return case
     g = Gen(rng, defs, nops or rng.choice([6, 10, 14, 18, 24]))
     case = g.run()
     case["precautions"] = g.precautions
